@@ -632,6 +632,16 @@ def r26_13(ctx, rep):
 
 
 @SPEC.rule(
+    "R26.16",
+    "what is counted is what was asked for: every *.mo file found below a directory given on the command line is listed for parsing "
+    "(list_modelica_files appends on every iteration of its glob loop) — a file that is filtered out can neither fail nor be counted",
+)
+def r26_16(ctx, rep):
+    from .c27 import every_globbed_file_listed
+    every_globbed_file_listed(ctx, rep, "R26.16")
+
+
+@SPEC.rule(
     "R26.15",
     "every error is reported and counted for the item it belongs to: no function of the compiler tool reads a for-loop's variable after that loop has ended (the value the last iteration left behind)",
 )
